@@ -459,7 +459,7 @@ def _estimate_rank(ctx: Ctx):
     res = {}
     for flag in (True, False):
         node, folded = specialise(f.node, {"self.is_log": flag})
-        if folded < 2:
+        if folded < 1:
             raise AnalysisError("C19: DirectEstimator.__call__ no longer branches on self.is_log")
         rd = ReachingDefs(node)
         NEG = -99
